@@ -17,6 +17,7 @@ from .gen import Config, grow_blob
 DEFAULT_WEIGHTS = {
     "scenario": 0,
     "prim_seg": 0,
+    "ctrl": 0,
     "add_node": 3,
     "delete_node": 3,
     "add_edge": 4,
@@ -82,8 +83,17 @@ def role_of(g, n) -> str:
     return "+".join(r) if r else "interior"
 
 
-def fresh_node_id(tracks, rng):
+def fresh_node_id(tracks, rng, graveyard=()):
     used = set(int(n) for n in tracks.graph.nodes)
+    if graveyard and rng.random() < 0.25:
+        # the id of a node that existed earlier in this session (deleted, erased, undone)
+        # is free again and may be given to a new node in any frame
+        cand = [n for n in graveyard if n not in used and n > 0]
+        if tracks.segmentation is not None:
+            labs = set(int(x) for x in np.unique(tracks.segmentation))
+            cand = [n for n in cand if n not in labs]
+        if cand:
+            return rng.choice(cand)
     if tracks.segmentation is not None:
         used |= set(int(x) for x in np.unique(tracks.segmentation))
     if rng.random() < 0.6:
@@ -115,9 +125,15 @@ class OpGen:
     # -- locality: follow-up edits aim at the neighbourhood of the previous ones (defects
     #    that need two or three related edits in a row are otherwise reached too rarely)
     focus: frozenset = frozenset()
+    graveyard: tuple = ()
+    seen_nodes: frozenset = frozenset()
 
     def note(self, op, tracks):
         g = tracks.graph
+        now_nodes = frozenset(int(n) for n in g.nodes)
+        gone = [n for n in self.seen_nodes if n not in now_nodes]
+        self.graveyard = tuple(gone)[-8:]
+        self.seen_nodes = self.seen_nodes | now_nodes
         named = named_of(tracks, op)["nodes"] if op.get("op") != "features" else set()
         near = set()
         for n in named:
@@ -296,6 +312,14 @@ class OpGen:
         def s_enable(tr):
             return {"op": "features", "enable": [k], "recompute": True}
 
+        # variant without the deletion: the element stays, only its masks change while the
+        # feature is off (a re-computation must then overwrite whatever value is stored)
+        if rng.random() < 0.35:
+            steps = [s_disable, s_mask, s_mask, s_enable]
+            if k2:
+                steps.append(lambda tr: {"op": "features", "enable": [k2], "recompute": True})
+            self.queue = steps[1:]
+            return s_disable(tracks)
         steps = [s_disable, s_mask, s_delete, s_enable]
         if k2:
             steps.append(lambda tr: {"op": "features", "enable": [k2], "recompute": True})
@@ -326,7 +350,7 @@ class OpGen:
         T = n_frames(tracks, cfg)
         t = rng.randrange(T)
         op: dict[str, Any] = {"op": "add_node", "time": t, "force": rng.random() < 0.5}
-        op["node"] = fresh_node_id(tracks, rng)
+        op["node"] = fresh_node_id(tracks, rng, self.graveyard)
         if self.bad(0.06) and tracks.graph.number_of_nodes():
             op["node"] = int(rng.choice(list(tracks.graph.nodes)))
         tids = used_track_ids(tracks)
@@ -567,7 +591,7 @@ class OpGen:
         elif r < 0.6 and here:
             label = int(rng.choice(here))
         else:
-            label = fresh_node_id(tracks, rng)
+            label = fresh_node_id(tracks, rng, self.graveyard)
         # stroke geometry
         cells: set[tuple] = set()
         mode = rng.random()
@@ -614,6 +638,7 @@ class OpGen:
             "force": rng.random() < 0.5,
             "order": rng.choice(["asc", "desc"]),
             **({"noop_call": True} if label == 0 and rng.random() < 0.5 else {}),
+            **({"report_unchanged": True} if label != 0 and rng.random() < 0.25 else {}),
             **(self._second_frame(tracks, t) if label == 0 and rng.random() < 0.3 else {}),
             **({"via": "controller"} if rng.random() < 0.1 else {}),
         }
@@ -655,6 +680,77 @@ class OpGen:
         if self.rng.random() < 0.12:
             return {"op": "redo", "via": "controller"}
         return {"op": "redo"}
+
+    def gen_ctrl(self, tracks):
+        """A call of the deprecated TracksController with SEVERAL elements: every element
+        becomes its own top-level user action (own history step, own refresh)."""
+        rng = self.rng
+        g = tracks.graph
+        nodes = [int(n) for n in g.nodes]
+        what = rng.choice(["add_nodes", "delete_nodes", "add_edges", "delete_edges",
+                           "update_attrs"])
+        if what == "add_nodes":
+            saved, self.refusal_rate = self.refusal_rate, 0.0
+            try:
+                parts = []
+                for _ in range(rng.randint(2, 3)):
+                    op = self.gen_add_node(tracks)
+                    if op is None or "omit" in op:
+                        continue
+                    if any(op["node"] == q["node"] for q in parts):
+                        continue
+                    if "pixels" in op and any(
+                            q["time"] == op["time"] and
+                            {tuple(c) for c in q["pixels"]} & {tuple(c) for c in op["pixels"]}
+                            for q in parts):
+                        continue
+                    op.pop("pos", None) if "pixels" in op else None
+                    op.pop("area", None)
+                    op.pop("caller_reuses_dict", None)
+                    parts.append(op)
+            finally:
+                self.refusal_rate = saved
+            if len(parts) < 2:
+                return None
+            return {"op": "ctrl", "what": what, "parts": parts, "force": rng.random() < 0.4}
+        if what == "delete_nodes":
+            if len(nodes) < 2:
+                return None
+            k = rng.randint(2, min(3, len(nodes)))
+            first = self.pick_node(tracks, nodes)
+            rest = [n for n in nodes if n != first]
+            near = [n for n in rest if n in self.focus or g.has_edge(first, n)
+                    or g.has_edge(n, first)]
+            sel = [first]
+            while len(sel) < k and rest:
+                n = rng.choice(near) if near and rng.random() < 0.6 else rng.choice(rest)
+                if n not in sel:
+                    sel.append(n)
+                rest = [x for x in rest if x != n]
+                near = [x for x in near if x != n]
+            return {"op": "ctrl", "what": what, "nodes": sel}
+        if what == "add_edges":
+            es = []
+            for _ in range(rng.randint(1, 2)):
+                op = self.gen_add_edge(tracks)
+                if op and op["edge"] not in es and all(n in g for n in op["edge"]):
+                    es.append(op["edge"])
+            if not es:
+                return None
+            return {"op": "ctrl", "what": what, "edges": es, "force": rng.random() < 0.4}
+        if what == "delete_edges":
+            edges = [[int(u), int(v)] for u, v in g.edges]
+            if not edges:
+                return None
+            return {"op": "ctrl", "what": what,
+                    "edges": rng.sample(edges, min(len(edges), rng.randint(1, 2)))}
+        if not nodes:
+            return None
+        sel = rng.sample(nodes, min(len(nodes), rng.randint(1, 3)))
+        key = rng.choice(["score", "note"])
+        vals = [round(rng.random(), 3) if key == "score" else rng.choice(["p", "q", ""])
+                for _ in sel]
+        return {"op": "ctrl", "what": what, "nodes": sel, "attrs": {key: vals}}
 
     def gen_prim_seg(self, tracks):
         """Primitive UpdateNodeSeg on a random node: remove part / ALL of its mask or add
@@ -721,6 +817,8 @@ def _pixels_tuple(t, cells):
 def named_of(tracks, op: dict) -> dict:
     """Nodes and track ids an op names (for the frame clauses of C04/C05)."""
     k = op["op"]
+    if k == "reload":
+        return {"nodes": set(), "tids": set()}
     nodes: set[int] = set()
     tids: set[int] = set()
     if k == "add_node":
@@ -735,6 +833,13 @@ def named_of(tracks, op: dict) -> dict:
         nodes.update(op["nodes"])
     elif k in ("update_attrs", "prim_seg"):
         nodes.add(op["node"])
+    elif k == "ctrl":
+        for q in op.get("parts", []):
+            nodes.add(q["node"])
+            tids.add(q["track_id"])
+        nodes.update(op.get("nodes", []))
+        for e in op.get("edges", []):
+            nodes.update(e)
     elif k == "paint":
         nodes.add(op["label"])
         tids.add(op["track_id"])
@@ -836,6 +941,37 @@ def execute_inner(tracks, op: dict) -> Outcome:
                         d_.update({"note": "caller-changed-this-later", "score": -1.0})
                 else:
                     a = UserUpdateNodeAttrs(tracks, I(op["node"]), dict(op["attrs"]))
+            elif k == "ctrl":
+                from funtracks.data_model.tracks_controller import TracksController
+
+                c = TracksController(tracks)
+                w = op["what"]
+                if w == "add_nodes":
+                    parts = op["parts"]
+                    attrs_l: dict[str, list] = {
+                        tracks.features.time_key: [q["time"] for q in parts],
+                        tracks.features.tracklet_key: [q["track_id"] for q in parts]}
+                    pixels_l = None
+                    if "pixels" in parts[0]:
+                        attrs_l["node_id"] = [q["node"] for q in parts]
+                        pixels_l = [_pixels_tuple(q["time"], q["pixels"]) for q in parts]
+                    else:
+                        pk = tracks.features.position_key
+                        if isinstance(pk, list):
+                            for i_, a_ in enumerate(pk):
+                                attrs_l[a_] = [q["pos"][i_] for q in parts]
+                        else:
+                            attrs_l[pk] = [list(q["pos"]) for q in parts]
+                    c.add_nodes(attrs_l, pixels_l, force=op.get("force", False))
+                elif w == "delete_nodes":
+                    c.delete_nodes(list(op["nodes"]))
+                elif w == "add_edges":
+                    c.add_edges([tuple(e) for e in op["edges"]], force=op.get("force", False))
+                elif w == "delete_edges":
+                    c.delete_edges([tuple(e) for e in op["edges"]])
+                else:
+                    c.update_node_attrs(list(op["nodes"]), dict(op["attrs"]))
+                return Outcome(ok=True, ret="ctrl", info=info)
             elif k == "prim_seg":
                 # primitive UpdateNodeSeg (all or part of a node's mask removed, or pixels
                 # added) immediately inverted: the session state is left where it was
@@ -893,6 +1029,11 @@ def execute_inner(tracks, op: dict) -> Outcome:
                 keys = sorted(groups, reverse=(op.get("order") == "desc"))
                 updated = [(_pixels_tuple(t, groups[p]), p) for p in keys]
                 updated += [(_pixels_tuple(t2, cs), pv) for t2, pv, cs in extra_groups]
+                same = [c for c, p in zip(cells, prev) if p == label]
+                if op.get("report_unchanged") and same and label != 0:
+                    # the brush also went over pixels that already carried the label; some
+                    # front ends report them too (previous value == new value)
+                    updated.append((_pixels_tuple(t, same), label))
                 if extra_groups:
                     info["prev_labels"] = sorted(set(info["prev_labels"])
                                                  | {pv for _, pv, _ in extra_groups})
